@@ -1,9 +1,377 @@
 package main
 
-import . "vh/vhlib"
+// C11 - graceful shutdown and hot upgrade.
+//
+// part 1  transfer message codec: the real transferBuildHead / transferSendHead / transferRecvHead /
+//         transferReadRecvData / transferWrite{Send,Recv}Data / transfer{Send,Recv}ID (through verif wrappers) over a
+//         real unix socket pair, arbitrary contents, boundary lengths.
+// part 2  listener state machine: the real network.NewListener driven by generated Start/Shutdown/Close histories
+//         (Shutdown under stagemanager state Running and Upgrading), probed with real TCP connects after each step.
+// part 3  in-process MOSN (real connHandler, listener, proxy, bolt codec) in front of a scripted upstream;
+//         GracefulStopListener at offsets sweeping the request lifetime (c11srv.go).
+// finder: the property itself on the implementation (round trip / no accept after stop / in-flight requests answered
+//         before Shutdown returns).
+
+import (
+	"context"
+	"fmt"
+	"net"
+	"os"
+	"path/filepath"
+	"sync"
+	"time"
+
+	"mosn.io/api"
+	v2 "mosn.io/mosn/pkg/config/v2"
+	"mosn.io/mosn/pkg/log"
+	"mosn.io/mosn/pkg/network"
+	"mosn.io/mosn/pkg/stagemanager"
+	"mosn.io/pkg/buffer"
+
+	. "vh/vhlib"
+)
+
+const c11Header = "From MV Require Import Lib.Bytes Lib.Seg Model.Shutdown.\nFrom Coq Require Import List NArith.\nImport ListNotations.\n"
+
+func unixPair(dir string) (*net.UnixConn, *net.UnixConn, func()) {
+	path := filepath.Join(dir, fmt.Sprintf("vh-c11-%d.sock", os.Getpid()))
+	os.Remove(path)
+	ln, err := net.Listen("unix", path)
+	if err != nil {
+		panic(err)
+	}
+	type acc struct {
+		c   net.Conn
+		err error
+	}
+	ch := make(chan acc, 1)
+	go func() { c, err := ln.Accept(); ch <- acc{c, err} }()
+	a, err := net.Dial("unix", path)
+	if err != nil {
+		panic(err)
+	}
+	b := <-ch
+	if b.err != nil {
+		panic(b.err)
+	}
+	return a.(*net.UnixConn), b.c.(*net.UnixConn), func() { a.Close(); b.c.Close(); ln.Close(); os.Remove(path) }
+}
+
+func readN(c net.Conn, n int) ([]byte, error) {
+	b := make([]byte, n)
+	off := 0
+	for off < n {
+		k, err := c.Read(b[off:])
+		if err != nil {
+			return b[:off], err
+		}
+		off += k
+	}
+	return b, nil
+}
+
+// patterned payloads keep the Coq terms small (CoqBytes run-length compresses), short ones are random
+func payload(r *Rng, n int) []byte {
+	if n <= 600 {
+		return r.Bytes(n)
+	}
+	b := make([]byte, n)
+	fill := byte(r.Intn(256))
+	for i := range b {
+		b[i] = fill
+	}
+	// a few random islands and random ends
+	for k := 0; k < 4; k++ {
+		p := r.Intn(n - 8)
+		copy(b[p:], r.Bytes(8))
+	}
+	copy(b, r.Bytes(5))
+	copy(b[n-5:], r.Bytes(5))
+	return b
+}
 
 func c11(args []string) int {
 	run := NewRun("C11", args)
+	r := run.R
+	log.DefaultLogger.SetLogLevel(log.FATAL)
+	run.Sum.Rule = "codec: head values and buffer lengths over the boundaries 0,1,7,8,9,255,256,65535,65536,2^31,2^32-1 (heads) / up to 1 MiB (buffers), random and patterned contents, extra bytes following on the socket; non-trivial = non-empty data or tls; distinct by (lengths, first bytes). listener: histories of 3-6 operations from {Start, Start(restart), Shutdown, Shutdown while Upgrading, Close} on a real TCP listener, a connect probe after every step; non-trivial = history contains a Shutdown; distinct by history. drain: in-process MOSN, bolt request whose upstream delay sets the phase, GracefulStopListener at offsets sweeping receiving / waiting-for-upstream / reply phases; distinct by (phase durations, offset)."
+
+	dir, err := os.MkdirTemp("", "vh-c11-")
+	if err != nil {
+		panic(err)
+	}
+	defer os.RemoveAll(dir)
+
+	// ---------------- part 1: codec ----------------
+	a, b, closePair := unixPair(dir)
+	heads := run.NewShard(c11Header, "head_case", "head_mismatches")
+	bounds := []uint64{0, 1, 7, 8, 9, 255, 256, 257, 65535, 65536, 1 << 24, 1<<31 - 1, 1 << 31, 1<<32 - 1}
+	nh := run.N(60, 600)
+	for i := 0; i < nh; i++ {
+		pick := func() uint64 {
+			if r.Pct(60) {
+				return bounds[r.Intn(len(bounds))]
+			}
+			return r.U64() & 0xffffffff
+		}
+		s1, s2 := pick(), pick()
+		built := network.VerifTransferBuildHead(uint32(s1), uint32(s2))
+		if err := network.VerifTransferSendHead(a, uint32(s1), uint32(s2)); err != nil {
+			panic(err)
+		}
+		p1, p2, err := network.VerifTransferRecvHead(b)
+		if err != nil {
+			panic(err)
+		}
+		run.Count(fmt.Sprintf("head|%d|%d", s1, s2), s1 != 0 || s2 != 0, "codec-head")
+		rep := map[string]interface{}{"part": "head", "s1": s1, "s2": s2, "built": Hex(built), "parsed": []int{p1, p2}}
+		if uint64(p1) != s1 || uint64(p2) != s2 {
+			run.Fail("transfer-codec:head-roundtrip-differs", fmt.Sprintf("head (%d,%d) came back as (%d,%d)", s1, s2, p1, p2), rep)
+		}
+		heads.Add(fmt.Sprintf("(%s, %s, %s, %s, %s)", CoqN(s1), CoqN(s2), CoqBytes(built), CoqN(uint64(p1)), CoqN(uint64(p2))), rep)
+	}
+	heads.Close()
+
+	rm := run.NewShard(c11Header, "rmsg_case", "rmsg_mismatches")
+	dataLens := []int{0, 1, 7, 8, 9, 255, 256, 257, 1023, 1024, 4095, 4096, 65535, 65536, 70000}
+	if run.Thorough() {
+		dataLens = append(dataLens, 262144, 1<<20-1, 1<<20)
+	}
+	tlsLens := []int{0, 0, 1, 8, 100, 700}
+	nm := run.N(40, 300)
+	for i := 0; i < nm; i++ {
+		dl := dataLens[i%len(dataLens)]
+		if i >= len(dataLens) && r.Pct(50) {
+			dl = r.Intn(3000)
+		}
+		tl := tlsLens[r.Intn(len(tlsLens))]
+		data, tls, extra := payload(r, dl), payload(r, tl), r.Bytes(r.Intn(6))
+		// wire image: the same send captured raw
+		send := func() {
+			buf := buffer.GetIoBuffer(dl + tl)
+			buf.Write(data)
+			buf.Write(tls)
+			if err := network.VerifTransferReadSend(a, buf, dl, tl); err != nil {
+				panic(err)
+			}
+		}
+		var wire []byte
+		var wg sync.WaitGroup
+		wg.Add(1)
+		go func() { defer wg.Done(); wire, _ = readN(b, 8+dl+tl) }()
+		send()
+		wg.Wait()
+		// the real receiver, followed by extra bytes that must stay on the socket
+		var d2, t2, rest []byte
+		var rerr error
+		wg.Add(1)
+		go func() {
+			defer wg.Done()
+			d2, t2, rerr = network.VerifTransferReadRecv(b)
+			rest, _ = readN(b, len(extra))
+		}()
+		send()
+		a.Write(extra)
+		wg.Wait()
+		if rerr != nil {
+			panic(rerr)
+		}
+		run.Count(fmt.Sprintf("rmsg|%d|%d|%x", dl, tl, append(append([]byte{}, data[:min(4, dl)]...), tls[:min(4, tl)]...)), dl+tl > 0, "codec-read-msg", fmt.Sprintf("codec-read-len<=%d", bucket(dl)))
+		rep := map[string]interface{}{"part": "read-msg", "data_len": dl, "tls_len": tl, "extra": Hex(extra), "data_head": Hex(data[:min(16, dl)])}
+		if string(d2) != string(data) || string(t2) != string(tls) || string(rest) != string(extra) {
+			run.Fail("transfer-codec:read-message-roundtrip-differs", fmt.Sprintf("data %d B / tls %d B came back as %d B / %d B (contents differ or following bytes consumed)", dl, tl, len(d2), len(t2)), rep)
+		}
+		rm.Add(fmt.Sprintf("(%s, %s, %s, %s, %s, %s)", CoqBytes(data), CoqBytes(tls), CoqBytes(wire), CoqBytes(extra), CoqBytes(d2), CoqBytes(t2)), rep)
+		if i < 3 {
+			run.Sample(rep)
+		}
+	}
+	rm.Close()
+
+	wm := run.NewShard(c11Header, "wmsg_case", "wmsg_mismatches")
+	ids := []uint64{1, 2, 255, 256, 65536, 1<<32 - 1, 1 << 32, 1<<32 + 5, 1 << 40}
+	for i := 0; i < run.N(30, 200); i++ {
+		id := ids[r.Intn(len(ids))]
+		if r.Pct(40) {
+			id = uint64(1 + r.Intn(1<<20))
+		}
+		dl := dataLens[r.Intn(len(dataLens))]
+		if r.Pct(50) {
+			dl = r.Intn(2000)
+		}
+		data := payload(r, dl)
+		var wire []byte
+		var wg sync.WaitGroup
+		wg.Add(1)
+		go func() { defer wg.Done(); wire, _ = readN(b, 8+dl) }()
+		if err := network.VerifTransferWriteSend(a, int(id), buffer.NewIoBufferBytes(append([]byte{}, data...))); err != nil {
+			panic(err)
+		}
+		wg.Wait()
+		var id2 int
+		var d2 []byte
+		wg.Add(1)
+		go func() { defer wg.Done(); id2, d2, _ = network.VerifTransferWriteRecv(b) }()
+		if err := network.VerifTransferWriteSend(a, int(id), buffer.NewIoBufferBytes(append([]byte{}, data...))); err != nil {
+			panic(err)
+		}
+		wg.Wait()
+		// the id message
+		network.VerifTransferSendID(a, id)
+		id3 := network.VerifTransferRecvID(b)
+		run.Count(fmt.Sprintf("wmsg|%d|%d", id, dl), true, "codec-write-msg")
+		rep := map[string]interface{}{"part": "write-msg", "id": id, "data_len": dl, "id_back": id2, "id_msg_back": id3}
+		if string(d2) != string(data) || (id < 1<<32 && (uint64(id2) != id || id3 != id)) {
+			run.Fail("transfer-codec:write-message-roundtrip-differs", fmt.Sprintf("id %d / %d B came back as id %d (id message %d) / %d B", id, dl, id2, id3, len(d2)), rep)
+		}
+		if uint64(id2) != id3 {
+			run.Fail("transfer-codec:id-encodings-disagree", "the id in the write head and the id message decode differently", rep)
+		}
+		wm.Add(fmt.Sprintf("(%s, %s, %s, %s, %s)", CoqN(id), CoqBytes(data), CoqBytes(wire), CoqN(uint64(id2)), CoqBytes(d2)), rep)
+	}
+	wm.Close()
+	closePair()
+
+	// ---------------- part 2: listener ----------------
+	if rc := c11Listener(run); rc != 0 {
+		return rc
+	}
+	// ---------------- part 3: in-process server ----------------
+	if rc := c11Server(run); rc != 0 {
+		return rc
+	}
 	return run.Finish()
 }
 
+func bucket(n int) int {
+	for _, b := range []int{0, 8, 256, 4096, 65536, 1 << 20} {
+		if n <= b {
+			return b
+		}
+	}
+	return 1 << 30
+}
+
+func min(a, b int) int {
+	if a < b {
+		return a
+	}
+	return b
+}
+
+// ---------------------------------------------------------------------------------------------
+
+type probeCB struct {
+	mu        sync.Mutex
+	accepted  map[string]bool // remote address of accepted connections
+	shutdowns int
+}
+
+func (p *probeCB) OnAccept(rawc net.Conn, _ bool, _ net.Addr, _ chan api.Connection, _ []byte, _ []api.ConnectionEventListener) {
+	p.mu.Lock()
+	p.accepted[rawc.RemoteAddr().String()] = true
+	p.mu.Unlock()
+	rawc.Close()
+}
+func (p *probeCB) OnNewConnection(ctx context.Context, conn api.Connection) {}
+func (p *probeCB) OnClose()                                                {}
+func (p *probeCB) OnShutdown() {
+	p.mu.Lock()
+	p.shutdowns++
+	p.mu.Unlock()
+}
+func (p *probeCB) PreStopHook(ctx context.Context) func() error { return nil }
+
+func freePort() int {
+	ln, err := net.Listen("tcp", "127.0.0.1:0")
+	if err != nil {
+		panic(err)
+	}
+	p := ln.Addr().(*net.TCPAddr).Port
+	ln.Close()
+	return p
+}
+
+func c11Listener(run *Run) int {
+	r := run.R
+	sh := run.NewShard(c11Header, "lis_case", "lis_mismatches")
+	opNames := []string{"OpStart false", "OpStart true", "OpShutdown false", "OpShutdown true", "OpClose"}
+	nseq := run.N(14, 120)
+	for s := 0; s < nseq; s++ {
+		bind := !r.Pct(10)
+		port := freePort()
+		addr := &net.TCPAddr{IP: net.ParseIP("127.0.0.1"), Port: port}
+		lc := &v2.Listener{ListenerConfig: v2.ListenerConfig{Name: fmt.Sprintf("vh-lis-%d", s), BindToPort: bind}, Addr: addr}
+		l := network.NewListener(lc)
+		cb := &probeCB{accepted: map[string]bool{}}
+		l.SetListenerCallbacks(cb)
+		n := 3 + r.Intn(4)
+		var ops []int
+		// every history starts the listener first: Start on a listener that was stop-accepted before it ever listened
+		// dereferences the nil raw listener (listener.go Start, metrics.AddListenerAddr) - a corner outside this property
+		ops = append(ops, 0)
+		for len(ops) < n {
+			ops = append(ops, r.Intn(len(opNames)))
+		}
+		var tr []string
+		var hist []string
+		afterStop, afterStopAccept := false, false
+		hasShutdown := false
+		for _, o := range ops {
+			switch o {
+			case 0:
+				go l.Start(nil, false)
+				afterStopAccept = false
+			case 1:
+				go l.Start(nil, true)
+				afterStop, afterStopAccept = false, false
+			case 2:
+				stagemanager.SetState(stagemanager.Running)
+				l.Shutdown(nil)
+				afterStop, hasShutdown = true, true
+			case 3:
+				stagemanager.SetState(stagemanager.Upgrading)
+				l.Shutdown(nil)
+				stagemanager.SetState(stagemanager.Running)
+				afterStopAccept, hasShutdown = true, true
+			case 4:
+				l.Close(nil)
+			}
+			time.Sleep(25 * time.Millisecond)
+			// probe
+			acc := false
+			c, err := net.DialTimeout("tcp", addr.String(), 200*time.Millisecond)
+			if err == nil {
+				me := c.LocalAddr().String()
+				for w := 0; w < 12 && !acc; w++ {
+					time.Sleep(5 * time.Millisecond)
+					cb.mu.Lock()
+					acc = cb.accepted[me]
+					cb.mu.Unlock()
+				}
+				c.Close()
+			}
+			cb.mu.Lock()
+			dr := cb.shutdowns
+			cb.mu.Unlock()
+			hist = append(hist, opNames[o])
+			tr = append(tr, fmt.Sprintf("(%s, %s, %d%%nat)", opNames[o], CoqBool(acc), dr))
+			rep := map[string]interface{}{"part": "listener", "bind_port": bind, "history": append([]string{}, hist...), "accepted": acc, "on_shutdown_calls": dr}
+			if bind && acc && afterStop {
+				run.Fail("listener:accepted-after-graceful-stop", fmt.Sprintf("a connection was accepted after Shutdown (history %v)", hist), rep)
+			}
+			if bind && acc && afterStopAccept {
+				run.Fail("listener:accepted-by-old-process-after-upgrade-stop", fmt.Sprintf("the old process accepted a connection after Shutdown while Upgrading (history %v)", hist), rep)
+			}
+		}
+		l.Close(nil)
+		run.Count(fmt.Sprintf("lis|%v|%v", bind, hist), hasShutdown, "listener-history", fmt.Sprintf("listener-ops=%d", len(ops)))
+		rep := map[string]interface{}{"part": "listener", "bind_port": bind, "history": hist, "trace": tr}
+		sh.Add(fmt.Sprintf("(%s, %s)", CoqBool(bind), CoqList(tr)), rep)
+		if s < 2 {
+			run.Sample(rep)
+		}
+	}
+	sh.Close()
+	return 0
+}
